@@ -295,7 +295,7 @@ def giant_inputs(ctx, fo, n_inputs):
                 merged.append([s, c])
         cs, norm = rng.random() < 0.4, rng.random() < 0.5
         small = [s for s, c in merged for _k in range(min(c, 3))]
-        pat = rand_pattern(rng, fo, small, rng.randint(1, 3), cs, norm)
+        pat = rand_pattern(rng, fo, small, rng.randint(1, 3), cs, norm)[:4]
         sch = rng.choice(["default", "path", "history"])
         for kind in KINDS:
             for fwd in (True, False):
